@@ -96,6 +96,28 @@ def avp_int(d: List[int]) -> bool:
             and len(avp.dump()) % 4 == 0)
 
 
+def avp_long(d: List[int]) -> bool:
+    """
+    pre: len(d) == len(P["pos"]) and all(0 <= x <= 9 for x in d)
+    pre: P["pos"][0] != 0 or d[0] != 0
+    post: _
+    """
+    # long numbers (up to 20 digits): the digits at the grid positions are symbolic, the others concrete
+    base = list(P["base"])
+    for p_, x in zip(P["pos"], d):
+        base[p_] = x
+    s = _digits(base)
+    n = 0
+    for x in base:
+        n = n * 10 + x
+    cls = MsisdnAVP if P["cls"] == "MsisdnAVP" else StnSrAVP
+    avp = cls(n if P["kind"] == "int" else s)
+    reached()
+    exp = bytes.fromhex(ref_tbcd(s))
+    if REPLAY: note(input=s, observed=avp.data.hex(), expected=exp.hex())
+    return avp.data == exp and decode_from_tbcd(avp.data.hex()) == s
+
+
 def queries(tier, seed):
     qs = []
     lens = [1, 2, 3, 4, 5, 6, 7, 8] if tier == "quick" else list(range(1, 17))
@@ -111,11 +133,21 @@ def queries(tier, seed):
                 cto = 60 if tier == "quick" else 600
                 qs.append(Q(f"avp/{cls}/{kind}/L{L}", "avp_int", {"L": L, "cls": cls, "kind": kind}, cto=cto, pto=cto,
                             what=f"{cls}({kind}) for all {L}-digit numbers without leading zero"))
+    longs = [(13, [12]), (15, [0, 14]), (16, [15]), (17, [16]), (20, [19])] if tier == "quick" else \
+        [(L, pos) for L in (12, 13, 14, 15, 16, 17, 18, 19, 20) for pos in ([L - 1], [0, L - 1], [L // 2, L - 2])]
+    for L, pos in longs:
+        base = [(7 * i + 9) % 10 for i in range(L)]
+        base[0] = 9
+        for cls in ("MsisdnAVP", "StnSrAVP"):
+            for kind in ("int", "str"):
+                qs.append(Q(f"avp_long/{cls}/{kind}/L{L}/p{'_'.join(map(str, pos))}", "avp_long",
+                            {"cls": cls, "kind": kind, "base": base, "pos": pos}, cto=cto, pto=cto,
+                            what=f"{cls}({kind}) for {L}-digit numbers, digits at {pos} symbolic"))
     return qs
 
 
 BOUNDS = ["digit strings of concrete length L per query, every digit symbolic (all 10^L strings per query)",
-          "quick: L in 1..8 (functions), 1..4 (AVP constructors); thorough: L in 1..16"]
+          "quick: L in 1..8 (functions), 1..4 (AVP constructors); thorough: L in 1..16", "long numbers (12..20 digits): 1-2 symbolic digits per query at grid positions, the rest concrete"]
 OUTSIDE = ["L > 16", "the special symbols * # a b c (the property speaks of digit strings)",
            "numbers with leading zeros through the int path (not representable as int)"]
 ASSUMPTIONS = ["reference TBCD oracle (ref_tbcd) transcribes the 3GPP nibble-swapped form",
